@@ -10,6 +10,10 @@ import sys
 
 
 def main():
+    import os
+
+    if os.environ.get("NSSVERIF_PRELUDE"):  # process-wide third-party settings that have to be chosen before any import
+        exec(os.environ["NSSVERIF_PRELUDE"], {})
     from nssverif import core
 
     core.prepare_environment()
